@@ -1,6 +1,7 @@
 package core
 
 import (
+	"net"
 	"fmt"
 	"runtime"
 	"sort"
@@ -22,6 +23,7 @@ type acceptHook struct {
 	reject  bool
 	panics  bool   // the hook rejects by panicking instead of returning a status
 	setID   string // "" = leave the default id
+	wrap    string // "" | before | after: the hook also wraps the connection (ModifySocket), before or after its SetID
 	entered int
 }
 
@@ -30,8 +32,19 @@ func (h *acceptHook) PostAccept(s erpc.PreSession) *erpc.Status {
 	h.mu.Lock()
 	defer h.mu.Unlock()
 	h.entered++
+	wrap := func() {
+		s.ModifySocket(func(conn net.Conn) (net.Conn, erpc.ProtoFunc) {
+			return &meteredConn{Conn: conn, n: &meteredBytes}, nil
+		})
+	}
+	if h.wrap == "before" {
+		wrap()
+	}
 	if h.setID != "" {
 		s.SetID(h.setID)
+	}
+	if h.wrap == "after" {
+		wrap()
 	}
 	if h.reject {
 		if h.panics {
@@ -224,7 +237,7 @@ func (x *c07World) freshID() string {
 	return fmt.Sprintf("id-%d", x.nextID)
 }
 
-const ruleC07 = "rapid state machine over one serving peer and one dialling peer: actions {connect with accept-hook verdict accept / reject by status / reject by panicking, hook optionally SetID (fresh or colliding with a live session), SetID on a live session (fresh / same / colliding), call, push, close by the serving side / by the remote side / by cutting the connection, Close again on a closed session, call and push on a closed session}; after EVERY action, at a quiescent point (all modelled close notifications awaited), the invariant compares GetSession/CountSession/RangeSession with the model, Health with liveness, close notifications, and the per-session disconnect-hook count (exactly 1 for closed established sessions, 0 for live ones); at the end the peer is closed and everything is re-checked; non-trivial = history has a SetID collision, a close of an indexed session or a rejected accept; distinct by action history"
+const ruleC07 = "rapid state machine over one serving peer and one dialling peer: actions {connect with accept-hook verdict accept / reject by status / reject by panicking, hook optionally SetID (fresh or colliding with a live session) and optionally wrapping the connection with ModifySocket before or after that, SetID on a live session (fresh / same / colliding), call, push, close by the serving side / by the remote side / by cutting the connection, Close again on a closed session, call and push on a closed session}; after EVERY action, at a quiescent point (all modelled close notifications awaited), the invariant compares GetSession/CountSession/RangeSession with the model, Health with liveness, close notifications, and the per-session disconnect-hook count (exactly 1 for closed established sessions, 0 for live ones); at the end the peer is closed and everything is re-checked; non-trivial = history has a SetID collision, a close of an indexed session or a rejected accept; distinct by action history"
 
 func TestC07Lifecycle(t *testing.T) {
 	rec := vt.NewRec(t, "C07", "lifecycle", ruleC07)
@@ -260,13 +273,14 @@ func TestC07Lifecycle(t *testing.T) {
 						setID = victim.id
 					}
 				}
+				wrap := rapid.SampledFrom([]string{"", "", "before", "after"}).Draw(t, "wrap")
 				x.hook.mu.Lock()
-				x.hook.reject, x.hook.setID, x.hook.panics = reject, setID, panics
+				x.hook.reject, x.hook.setID, x.hook.panics, x.hook.wrap = reject, setID, panics, wrap
 				x.hook.mu.Unlock()
-				x.logf("connect reject=%v (by panic=%v) hookSetID=%q", reject, panics, setID)
+				x.logf("connect reject=%v (by panic=%v) hookSetID=%q wrapsConn=%q", reject, panics, setID, wrap)
 				l := x.w.Connect(x.cli, x.srv, x.proto, nil)
 				x.hook.mu.Lock()
-				x.hook.reject, x.hook.setID, x.hook.panics = false, "", false
+				x.hook.reject, x.hook.setID, x.hook.panics, x.hook.wrap = false, "", false, ""
 				x.hook.mu.Unlock()
 				cl := &c07Link{n: len(x.links), link: l, srv: l.B, cli: l.A}
 				x.links = append(x.links, cl)
